@@ -162,9 +162,15 @@ def run_engine(
     schema=None,
     configure: Callable | None = None,
     on_event: Callable[[Any, Any, int], None] | None = None,
+    stop: dict | None = None,
     max_wall_s: float = 120.0,
 ) -> RunRecord:
-    """``on_event(event, stream, index)`` may call ``stream.stop()``. ``configure(schema) -> schema`` applies filters etc."""
+    """``configure(schema) -> schema`` applies filters etc. ``on_event(event, stream, index)`` observes.
+
+    ``stop``: {"kind": "after_event", "k": n}  call ``stream.stop()`` right after the n-th event was received,
+              {"kind": "throw", "k": n}        throw KeyboardInterrupt into the event generator instead of asking for event n,
+              {"kind": "in_check", "k": n}     call ``stream.stop()`` from inside the n-th execution of a check.
+    """
     import schemathesis
     from schemathesis.engine import from_schema
 
@@ -174,15 +180,44 @@ def run_engine(
     schema = schema.configure(base_url=server.url)
     if configure is not None:
         schema = configure(schema) or schema
+    stop = stop or {"kind": "none"}
+    holder: dict = {}
+    if stop["kind"] == "in_check":
+        calls = [0]
+
+        def stopper(ctx, response, case):
+            calls[0] += 1
+            if calls[0] == stop["k"] and "stream" in holder:
+                holder["stream"].stop()
+                record.stop_requested_at = time.monotonic()
+            return None
+
+        stopper.__name__ = "vfw_stopper"
+        cfg = dict(cfg, extra_checks=list(cfg.get("extra_checks", [])) + [stopper])
     config = build_config(cfg)
     started = time.monotonic()
     try:
         stream = from_schema(schema, config=config).execute()
-        for index, event in enumerate(stream):
+        holder["stream"] = stream
+        it = iter(stream)
+        index = 0
+        while True:
+            try:
+                if stop["kind"] == "throw" and index == stop["k"]:
+                    record.stop_requested_at = time.monotonic()
+                    event = it.throw(KeyboardInterrupt)
+                else:
+                    event = next(it)
+            except StopIteration:
+                break
             record.raw_events.append(event)
             record.events.append(flatten(event))
+            index += 1
             if on_event is not None:
                 on_event(event, stream, index)
+            if stop["kind"] == "after_event" and index == stop["k"]:
+                stream.stop()
+                record.stop_requested_at = time.monotonic()
             if time.monotonic() - started > max_wall_s:
                 stream.stop()
     except BaseException as exc:  # noqa: BLE001
